@@ -114,6 +114,9 @@ def run_workers(binary, mode, base, total_runs, time_limit, tmpdir, tag, extra=N
         results['viol'] += viol
         results['stats'] += stats
         hashfiles.append(pr['hf'])
+        if rc in (0, 1) and not stats:
+            # a worker never ends without its statistics line: whatever killed it must not pass for a clean exit
+            results['stderr'].append('worker %d ended with exit code %d but without a statistics line: %s' % (pr['w'], rc, se[-2000:]))
         if rc not in (0, 1):
             if crashes:
                 c = crashes[-1]
